@@ -332,4 +332,40 @@ theorem removeName_maps {R : Router} {T : Str → Prop} (h : EInv R T) (name : S
             · simp [Route.pattern, he]
             · simp [Route.pattern, he]
 
+/-- two router states that satisfy the edit invariant and hold the same three maps answer
+alike (`history_eq_fresh` of `Props/C11.lean` is this for two histories) -/
+theorem answers_of_same_survivors {R F : Router} {T T' : Str → Prop} (hR : EInv R T) (hF : EInv F T')
+    (hsame : SameSurvivors R F) (env : FilterEnv) (hns : NoSel env) :
+    (∀ path ms, (R.resolve env path ms).answer = (F.resolve env path ms).answer) ∧
+    (∀ path ms rule vs, specResolve env R.rules (stripSlash path) = some (rule, vs) →
+      (∀ q, q <+: rule.pat → ¬ T (patStr q) ∧ ¬ T' (patStr q)) →
+      (R.resolve env path ms).hooks = (F.resolve env path ms).hooks) ∧
+    (∀ nm, ((R.byName nm).bind R.obj?).map Route.view = ((F.byName nm).bind F.obj?).map Route.view) ∧
+    (∀ cenv rule, (R.byRule cenv rule).map (fun o => (o.bind R.obj?).map Route.view) =
+      (F.byRule cenv rule).map (fun o => (o.bind F.obj?).map Route.view)) := by
+  obtain ⟨hroutes, hnames, hhooks⟩ := hsame
+  refine ⟨fun path ms => (answer_of_same_routes hR.inv hF.inv hroutes env hns path ms).1, ?_, hnames, ?_⟩
+  · intro path ms rule vs hsr hT
+    rcases (answer_of_same_routes hR.inv hF.inv hroutes env hns path ms).2 rule vs hsr with
+      ⟨h1, h2⟩ | ⟨rule', _, hpat, h1, h2⟩
+    · rw [h1, h2]
+    · have hmem : rule ∈ denote R.tree := (hR.inv.den _).mpr (specResolve_mem hsr).1
+      have hnt := hR.inv.notok rule hmem
+      rw [h1, h2, specHooks_index hR env rule.pat hnt (fun q hq => (hT q hq).1),
+        specHooks_index hF env rule.pat hnt (fun q hq => (hT q hq).2)]
+      congr 1
+      funext q
+      exact hhooks (patStr q)
+  · intro cenv rule
+    unfold Router.byRule
+    cases parseRule cenv rule with
+    | error e => rfl
+    | ok p =>
+      simp only
+      split
+      · rfl
+      · simp only [Except.map]
+        rw [matchPat_view hR.inv, matchPat_view hF.inv, hroutes]
+
+
 end Ombott.Router
